@@ -2,7 +2,7 @@ import ApolloModel.Proofs.ParserDoc3
 /-
 C05 growth (top level), part 4: `DefLemmas` instantiated from builderB's lemmas for the executable definitions
 (Proofs/ParserSel9.lean) and builderD's for the type-system definitions and extensions (Proofs/ParserDef15–16.lean),
-plus the one case neither covers: `fragment_definition` entered on a description.
+and `acc_fragmentDefinition_desc` (`fragment_definition` entered on a description is never error-free).
 -/
 set_option linter.unusedSimpArgs false
 namespace Apollo.Parse
@@ -12,33 +12,6 @@ open Apollo.Lex hiding Str
 theorem Acc.or {α : Type} {E : PState → Prop} {H1 H2 : List Tok → Prop} {m : PI α} {R : α → List Ast.Tok → Prop}
     (h1 : Acc E H1 m R) (h2 : Acc E H2 m R) : Acc E (fun q => H1 q ∨ H2 q) m R :=
   ⟨h1.1, fun s a s' w he hq hr hnd => hq.elim (fun h => h1.2 s a s' w he h hr hnd) (fun h => h2.2 s a s' w he h hr hnd)⟩
-
-/-- `fragment_definition` entered on a String token (a description): the string is bumped as the `fragment` keyword,
-    then FragmentName (any Name but `on`), TypeCondition, Directives?, SelectionSet -/
-theorem acc_fragmentDefinition_desc (n : Nat) :
-    Acc (fun _ => False) (HeadP (fun t : Tok => t.kind = .stringValue)) (fragmentDefinition n) (fun _ => IsDescFragment) := by
-  rw [fragmentDefinition_eq]
-  have hP : TokOk (fun t : Tok => t.kind = .stringValue) (fun x => ∃ d, x = [Ast.Tok.str d]) := by
-    intro t hk
-    exact ⟨by rw [hk]; rfl, by rw [hk]; decide, .str ((Strs.decodeStringToken t.data).getD []), by simp [astOfV, hk], _, rfl⟩
-  refine acc_withNode early_false _ (headP_sig hP) ?_
-  have hSel : Acc (fun _ => False) (fun _ => True) (fragSel n) (fun _ x => ∃ ss, ss ≠ Ast.Sels.nil ∧ x = Ast.tSelSet ss) :=
-    acc_ifKind .lCurly _ _ _ (acc_selectionSet n) acc_err
-  have hDirs : Acc (fun _ => False) (fun _ => True) (optKind .at (directives n false) (fragSel n))
-      (fun _ x => ∃ ds ss, ss ≠ Ast.Sels.nil ∧ x = Ast.tDirectives ds ++ Ast.tSelSet ss) := by
-    refine (acc_optKind early_false .at (directives n false) (fragSel n) _ _ (acc_directives n false) hSel).mono (fun _ h => h) ?_
-    rintro _ x ⟨x1, x2, e, h1, ss, hne, h2⟩
-    rcases h1 with ⟨ds, hd, _⟩ | h1
-    · exact ⟨ds, ss, hne, by rw [e, hd, h2]⟩
-    · exact ⟨[], ss, hne, by rw [e, h1, h2]; rfl⟩
-  have h3 := acc_bind early_false (acc_typeCondition (H := fun _ => True) early_false) (fun _ => hDirs)
-  have h2 := acc_bind early_false (acc_fragmentName (H := fun _ => True) early_false) (fun _ => h3)
-  have h1 := acc_bind early_false (acc_bump (E := fun _ => False) "fragment_KW" _ _ hP) (fun _ => h2)
-  refine h1.mono (fun _ h => h) ?_
-  rintro _ x ⟨_, x1, x2, e, ⟨d, hx1⟩, _, y1, y2, e2, ⟨nm, hne, hy1⟩, _, z1, z2, e3, ⟨tc, hz1⟩, ds, ss, hss, hz2⟩
-  refine ⟨d, nm, tc, ds, ss, hss, hne, ?_⟩
-  rw [e, hx1, e2, hy1, e3, hz1, hz2]
-  simp [sOnP, Ast.sOn]
 
 theorem dstart_defStart {word : String} {q : List Tok} (h : LexQ q ∧ DStart word.toList q) : LexQ q ∧ DefStart word q := by
   obtain ⟨hl, t, rest, rfl, h⟩ := h
@@ -61,7 +34,7 @@ theorem dstart_fragment {q : List Tok} (h : LexQ q ∧ DStart "fragment".toList 
   · right
     exact ⟨t, rfl, hk⟩
 
-private theorem isDef_loose {x : List Ast.Tok} (l : LooseDef) (e : x = l.toks) : IsDef x := .inr (.inr (.inl ⟨l, e⟩))
+private theorem isDef_loose {x : List Ast.Tok} (l : LooseDef) (e : x = l.toks) : IsDef x := .inr (.inr ⟨l, e⟩)
 
 /-- **`DefLemmas` holds**: every definition parser, entered the way the dispatcher enters it, consumes ONE definition -/
 theorem defLemmas (n : Nat) : DefLemmas n where
@@ -71,7 +44,7 @@ theorem defLemmas (n : Nat) : DefLemmas n where
   enumDef := (ent_enum n).mono (fun _ h => dstart_defStart h) (by
     rintro _ x ⟨desc, nm, ds, vs, e⟩; exact isDef_loose (.enum desc nm ds vs) e)
   fragment := ((acc_fragmentDefinition n).mono (fun _ h => h) (fun _ x h => (.inr (.inl h) : IsDef x))
-      |>.or ((acc_fragmentDefinition_desc n).mono (fun _ h => h) (fun _ x h => (.inr (.inr (.inr h)) : IsDef x)))).mono
+      |>.or (acc_fragmentDefinition_desc n)).mono
     (fun _ h => dstart_fragment h) (fun _ _ h => h)
   input := (ent_input n).mono (fun _ h => dstart_defStart h) (by
     rintro _ x ⟨desc, nm, ds, fs, e⟩; exact isDef_loose (.input desc nm ds fs) e)
